@@ -675,6 +675,8 @@ class Normaliser:
             changed = True
         if self.devirtualise_fn_items(b, gj):
             changed = True
+        if self.devirtualise_fn_pointers(b, gj):
+            changed = True
         if self.splice_closure_calls(b, gj):
             changed = True
         if self.thread_known_values(gj, b.types):
@@ -717,6 +719,47 @@ class Normaliser:
             tj["callee"] = {"path": o.data, "local": True, "args": [], "res": o.data, "res_local": True, "res_kind": "Item", "res_args": [],
                             "impl_self": fb.impl_self}
             tj["args"] = copy.deepcopy(ops)
+            tj["devirtualised"] = True
+            did = True
+        return did
+
+    def devirtualise_fn_pointers(self, b, gj):
+        """`op(&self.counter, delta, order)` where `op` is a function pointer that this body (after splicing) set to a known
+        function (`AtomicU64::fetch_add as fn(..)`): the indirect call becomes a direct call of that function"""
+        from mir import Body
+        from flow import BodyInfo
+        tmp = Body(gj, "lib", b.types)
+        tmp.id = b.id
+        info = BodyInfo(tmp, self.facts)
+        did = False
+        for blk in tmp.blocks:
+            t = blk.term
+            if blk.cleanup or t.k != "call" or t.callee is not None or t.fn_op is None or t.fn_op.place is None:
+                continue
+            o = info.trace(t.fn_op)
+            path = None
+            for _ in range(4):
+                if o.kind == "cast" and not o.path and isinstance(o.data, tuple):
+                    st = info.stmt(*o.data)
+                    src = st.rv.ops[0]
+                    if src.const is not None and "fn" in src.const:
+                        path = src.const["fn"]
+                        break
+                    if src.place is None:
+                        break
+                    o = info.trace(src)
+                elif o.kind == "const" and isinstance(o.data, str):
+                    path = o.data
+                    break
+                else:
+                    break
+            if not path:
+                continue
+            tj = gj["blocks"][blk.idx]["term"]
+            fb = self.facts.body(path)
+            tj["callee"] = {"path": path, "local": fb is not None, "args": [], "res": path if fb is not None else None, "res_local": fb is not None,
+                            "res_kind": "Item", "res_args": [], "impl_self": fb.impl_self if fb is not None else None}
+            tj.pop("fn_op", None)
             tj["devirtualised"] = True
             did = True
         return did
